@@ -88,6 +88,7 @@ class Path:
         s.nfid = 0
         s.events = []
         s.pid = 0
+        s.rng = []          # ERR mode: "this rounded intermediate is a normal finite float" conditions collected so far
 
     def clone(s):
         p = Path()
@@ -98,6 +99,7 @@ class Path:
         p.may_panic = s.may_panic
         p.nfid = s.nfid
         p.events = list(s.events)
+        p.rng = list(s.rng)
         return p
 
 
@@ -504,7 +506,16 @@ class Machine:
             u = Fraction(1, 2 ** 53) if ty == 'f64' else Fraction(1, 2 ** 24)
             s.cur.pc.append(band(cmp('<=', neg(u), d), cmp('<=', d, u)))
             s.stats['roundings'] = s.stats.get('roundings', 0) + 1
-            return arith('*', arith({'Add': '+', 'Sub': '-', 'Mul': '*', 'Div': '/'}[op], a, b), arith('+', 1, d))
+            r = arith('*', arith({'Add': '+', 'Sub': '-', 'Mul': '*', 'Div': '/'}[op], a, b), arith('+', 1, d))
+            # the (1 + delta) model is valid only while the rounded value is a normal finite float: every intermediate
+            # must stay below the overflow threshold and (being non-zero here) above the smallest normal number.
+            # These conditions are part of every later vrel_err obligation (a spurious overflow of an intermediate
+            # is a counterexample, replayed natively like any other).
+            big = Fraction(2 ** 1024 - 2 ** 971) if ty == 'f64' else Fraction(2 ** 128 - 2 ** 104)
+            tiny = Fraction(1, 2 ** 1022) if ty == 'f64' else Fraction(1, 2 ** 126)
+            s.cur.rng.append(band(band(cmp('<=', r, big), cmp('<=', neg(big), r)), bor(cmp('>=', r, tiny), cmp('<=', r, neg(tiny)))))
+            s.stats['range_conditions'] = s.stats.get('range_conditions', 0) + 1
+            return r
         if op in ('Add', 'Sub', 'Mul', 'Div'):
             return arith({'Add': '+', 'Sub': '-', 'Mul': '*', 'Div': '/'}[op], a, b)
         if op == 'Rem':
@@ -1049,7 +1060,10 @@ class Machine:
             oid = s.count(p, mid)
             bound = arith('*', arith('*', Fraction(ulps), Fraction(eps)), ite(cmp('>=', want, 0), want, neg(want)))
             dlt = arith('-', got, want)
-            s.obligations.append({'kind': 'bool', 'id': oid, 'leaf': 0, 'pc': tuple(p.pc), 'cond': band(cmp('<=', dlt, bound), cmp('<=', neg(bound), dlt)), 'path': p.pid, 'lemma': False})
+            cond = band(cmp('<=', dlt, bound), cmp('<=', neg(bound), dlt))
+            for rc in p.rng:
+                cond = band(rc, cond)
+            s.obligations.append({'kind': 'bool', 'id': oid, 'leaf': 0, 'pc': tuple(p.pc), 'cond': cond, 'path': p.pid, 'lemma': False})
             return []
         if base == 'vmay_panic':
             p.may_panic = True
